@@ -2,10 +2,10 @@ package main
 
 import (
 	"fmt"
-	"math"
 	"go/constant"
 	"go/token"
 	"go/types"
+	"math"
 	"strconv"
 	"strings"
 
@@ -59,21 +59,21 @@ type Path struct {
 }
 
 type Walker struct {
-	P         *Program
-	Inline    func(fn *ssa.Function, depth int) bool
-	Opaque    map[string]bool // callee names never inlined
-	LoopFuel  int
-	MaxPaths  int
-	MaxDepth  int
-	ForceBool bool // decide bool-typed results at return
-	RangeCap  int  // loops over collections of symbolic size are explored for 0..RangeCap elements, then assumed to end
+	P          *Program
+	Inline     func(fn *ssa.Function, depth int) bool
+	Opaque     map[string]bool // callee names never inlined
+	LoopFuel   int
+	MaxPaths   int
+	MaxDepth   int
+	ForceBool  bool                   // decide bool-typed results at return
+	RangeCap   int                    // loops over collections of symbolic size are explored for 0..RangeCap elements, then assumed to end
 	Assume     map[string]IntervalSet // initial regions of symbolic integers (e.g. one struct field per walk)
 	AssumeBool map[string]bool
 	// hooks
 	CallName func(callee *ssa.Function, name string) (string, bool, bool)
 	OnRecv   func(w *Walker, ch *Term, t types.Type, id int) (*Term, bool)
 	Nullable func(t *Term) bool // symbolic pointers that may be nil unless the path has established otherwise
-	OnCall func(w *Walker, name string, args []*Term, call *ssa.CallCommon, instr ssa.Instruction) (*Term, bool)
+	OnCall   func(w *Walker, name string, args []*Term, call *ssa.CallCommon, instr ssa.Instruction) (*Term, bool)
 
 	// per path
 	script    []int
@@ -91,6 +91,7 @@ type Walker struct {
 	abortKind string
 	loopCond  bool
 	Exploded  bool
+	Finite    bool // exact region splitting for compound expressions of one small-domain leaf (finite.go)
 }
 
 type deferred struct {
@@ -530,6 +531,9 @@ func isPureName(name string) bool {
 		return false
 	}
 	n := name
+	if strings.HasPrefix(n, "invoke:reflect.Type.") {
+		return true // the methods of reflect.Type only describe a type
+	}
 	if strings.HasPrefix(n, "invoke:") || strings.HasPrefix(n, "dyn:") {
 		return false
 	}
@@ -1326,6 +1330,41 @@ func (w *Walker) stdModel(name string, args []*Term, rt types.Type) *Term {
 				return mkNil(rt)
 			}
 		}
+	case "netip.MustParseAddr":
+		// canonical form of the unspecified IPv4 address
+		if str, ok := args[0].StrVal(); ok && str == "0.0.0.0" {
+			return &Term{Op: "call", Name: "netip.IPv4Unspecified", Typ: rt}
+		}
+	case "netip.AddrFrom4":
+		if len(args) == 1 && args[0].Op == "slicev" && len(args[0].Args) == 4 {
+			zero := true
+			for _, e := range args[0].Args {
+				if v, ok := e.Int64(); !ok || v != 0 {
+					zero = false
+				}
+			}
+			if zero {
+				return &Term{Op: "call", Name: "netip.IPv4Unspecified", Typ: rt}
+			}
+		}
+	case "netip.AddrPortFrom":
+		// canonical form of a constant IPv4 address:port (the documented equality of netip values)
+		if len(args) == 2 {
+			if port, ok := args[1].Int64(); ok && args[0].Op == "call" {
+				ip := ""
+				switch args[0].Name {
+				case "netip.IPv4Unspecified":
+					ip = "0.0.0.0"
+				case "netip.MustParseAddr":
+					if str, ok := args[0].Args[0].StrVal(); ok && !strings.Contains(str, ":") {
+						ip = str
+					}
+				}
+				if ip != "" {
+					return &Term{Op: "call", Name: "netip.MustParseAddrPort", Args: []*Term{mkConst(constant.MakeString(fmt.Sprintf("%s:%d", ip, port)), types.Typ[types.String])}, Typ: rt}
+				}
+			}
+		}
 	case "net.IPv4":
 		if len(args) == 4 {
 			bs := []int64{0, 0, 0, 0, 0, 0, 0, 0, 0, 0, 0xff, 0xff}
@@ -1661,6 +1700,28 @@ func (w *Walker) decideCmp(c *Term) bool {
 }
 
 func (w *Walker) decideIntConst(a *Term, op token.Token, n int64) bool {
+	if w.Finite {
+		if leaf, sat, uns, ok := w.finiteSplit(a, op, n); ok {
+			lk := leaf.String()
+			switch {
+			case uns.Empty() && !sat.Empty():
+				return true
+			case sat.Empty() && !uns.Empty():
+				return false
+			case sat.Empty() && uns.Empty():
+				w.abort("infeasible", "empty region for "+lk)
+			}
+			res := w.choose(2, lk) == 0
+			if res {
+				w.state.Ints[lk] = sat
+			} else {
+				w.state.Ints[lk] = uns
+			}
+			w.state.IntT[lk] = leaf
+			w.logDecision(fmt.Sprintf("%s%s%d=%v", a.String(), op, n, res))
+			return res
+		}
+	}
 	key := a.String()
 	cur, ok := w.state.Ints[key]
 	if !ok {
